@@ -11,15 +11,19 @@ type verifC16Src struct{ db, rp string }
 var verifC16SourceQueries = []struct {
 	text string
 	srcs []verifC16Src
+	sub  bool // has a sub query: refusing the query altogether is acceptable
 }{
-	{"SELECT v FROM a.b.m", []verifC16Src{{"a", "b"}}},
-	{"SELECT v FROM \"a\".\"b\".m, \"c\".\"d\".n", []verifC16Src{{"a", "b"}, {"c", "d"}}},
-	{"SELECT v FROM a..m", []verifC16Src{{"a", ""}}},
-	{"SELECT v FROM m", []verifC16Src{{"", ""}}},
+	{"SELECT v FROM a.b.m", []verifC16Src{{"a", "b"}}, false},
+	{"SELECT v FROM \"a\".\"b\".m, \"c\".\"d\".n", []verifC16Src{{"a", "b"}, {"c", "d"}}, false},
+	{"SELECT v FROM a..m", []verifC16Src{{"a", ""}}, false},
+	{"SELECT v FROM m", []verifC16Src{{"", ""}}, false},
 	// two sources in the same database with different retention policies
-	{"SELECT v FROM \"a\".\"b\".m, \"a\".\"d\".n", []verifC16Src{{"a", "b"}, {"a", "d"}}},
+	{"SELECT v FROM \"a\".\"b\".m, \"a\".\"d\".n", []verifC16Src{{"a", "b"}, {"a", "d"}}, false},
 	// the same pair twice
-	{"SELECT v FROM \"a\".\"b\".m, \"a\".\"b\".n", []verifC16Src{{"a", "b"}, {"a", "b"}}},
+	{"SELECT v FROM \"a\".\"b\".m, \"a\".\"b\".n", []verifC16Src{{"a", "b"}, {"a", "b"}}, false},
+	// sources inside a sub query count as well
+	{"SELECT v FROM (SELECT v FROM \"c\".\"d\".n)", []verifC16Src{{"c", "d"}}, true},
+	{"SELECT v FROM \"a\".\"b\".m, (SELECT v FROM \"c\".\"d\".n)", []verifC16Src{{"a", "b"}, {"c", "d"}}, true},
 }
 
 // VerifC16CheckDBRPs: a batch task with 1..2 query nodes and 1..2 declared dbrps
@@ -29,8 +33,10 @@ func VerifC16CheckDBRPs(v *vrt.T) {
 	nq := 1 + v.Choose("queries", 2)
 	bn := &BatchNode{}
 	var srcs []verifC16Src
+	sub := false
 	for i := 0; i < nq; i++ {
 		sq := verifC16SourceQueries[v.Choose("query", len(verifC16SourceQueries))]
+		sub = sub || sq.sub
 		qn, err := newQueryNode(nil, &pipeline.QueryNode{QueryStr: sq.text, Period: 10, Every: 10}, &verifNopDiag{})
 		v.Assert(err == nil && qn != nil, "query node created")
 		bn.children = append(bn.children, qn)
@@ -60,6 +66,10 @@ func VerifC16CheckDBRPs(v *vrt.T) {
 		}
 	}
 	v.Observe("allowed", err == nil)
-	v.Assert((err == nil) == allowed, "queries allowed iff every source is a declared (db, rp)")
+	if sub {
+		v.Assert(!(err == nil && !allowed), "queries with a sub query are never allowed when a source (also inside the sub query) is undeclared")
+	} else {
+		v.Assert((err == nil) == allowed, "queries allowed iff every source is a declared (db, rp)")
+	}
 	v.Reach("end")
 }
